@@ -12,11 +12,24 @@ from gv.engine import choice
 _STATE = {}
 
 
+_SCRATCH = []
+
+
 def scratch_root():
     base = "/dev/shm" if os.path.isdir("/dev/shm") and os.access("/dev/shm", os.W_OK) else None
     d = tempfile.mkdtemp(prefix="gv-", dir=base)
+    _SCRATCH.append((os.getpid(), d))
     atexit.register(shutil.rmtree, d, True)
     return d
+
+
+def cleanup_scratch():
+    """Remove the scratch roots this very process created (forked helpers exit without atexit)."""
+    me = os.getpid()
+    for pid, d in list(_SCRATCH):
+        if pid == me:
+            shutil.rmtree(d, ignore_errors=True)
+            _SCRATCH.remove((pid, d))
 
 
 def quiet_stderr():
@@ -152,6 +165,8 @@ def replay_with_history(body, shards, v, tier, seed, max_dev=None):
             q.put(bool(status == "ok" and want in res.violations))
         except BaseException as e:      # pragma: no cover
             q.put(False)
+        finally:
+            cleanup_scratch()
 
     p = ctxmp.Process(target=child)
     p.start()
@@ -181,6 +196,8 @@ def replay_isolated(body, v, tier, seed):
             q.put(any(x.sigkey() == want for x in ctx.violations))
         except BaseException:
             q.put(False)
+        finally:
+            cleanup_scratch()
 
     p = ctxmp.Process(target=child)
     p.start()
